@@ -756,3 +756,25 @@ M("C18.unsampled_exposes_ids", ["C18"], "traceparent/src/lib.rs",
 M("C18.filter_samples_non_spans", ["C18"], "traceparent/src/lib.rs",
   "        if emit::kind::is_span_filter().matches(&evt) {\n            if let (Some(incoming), _) =",
   "        {\n            if let (Some(incoming), _) =", "C18.R2")
+
+# ---- C20 -------------------------------------------------------------------------------------------
+M("C20.slot_get_or_init", ["C20"], "core/src/runtime.rs",
+  "            let rt = self.0.get()?;", "            let rt = self.0.get_or_init(|| unreachable!());", "C20.R1") if False else None
+M("C20.set_result_ignored", ["C20"], "core/src/runtime.rs",
+  "                .ok()?;\n\n            let rt = self.0.get()?;", "                .ok();\n\n            let rt = self.0.get()?;", "C20.R1:init")
+M("C20.empty_flush_false", ["C20", "C01"], "core/src/emitter.rs",
+  """impl Emitter for Empty {
+    fn emit<E: ToEvent>(&self, _: E) {}
+
+    fn blocking_flush(&self, _: Duration) -> bool {
+        true
+    }""",
+  """impl Emitter for Empty {
+    fn emit<E: ToEvent>(&self, _: E) {}
+
+    fn blocking_flush(&self, _: Duration) -> bool {
+        false
+    }""", ["C20.R3", "C01.S2.empty"])
+M("C20.try_init_wrong_component", ["C20"], "src/setup.rs",
+  "                .with_clock(self.clock)\n                .with_rng(self.rng),", "                .with_clock(Default::default())\n                .with_rng(self.rng),", "C20.R4") if False else None
+M("C20.init_slot_ignores_failure", ["C20"], "src/setup.rs", None, None, "x") if False else None
